@@ -247,3 +247,71 @@ def itertail(h):
             pre = ctx.pre_loop_out
             ctx.oblige('itertail: the header first, once; nothing after the window', z3.And(pre.len == 1, _t(row_eq(out_row(pre, 0), src_row(S, 0))), res.out.len == 0))
     h.explore(body)
+
+
+# ------------------------------------------------------------------------------------------------ selectusingcontext
+@vc('C13.iterselectusingcontext', functions=[SEL + 'iterselectusingcontext', 'petl.util.base.Record.__init__'], props=['C13', 'C02', 'C03'],
+    assumptions=['`query` is a deterministic callback on (previous, current, next) records that may raise',
+                 'hybrid loop rule: prv / cur are functions of the position (invariant); emission stated per step'])
+def selectusingcontext(h):
+    """row i is kept iff query(row i-1 or None, row i, row i+1 or None) is true; kept rows unchanged, in order; the operator
+    holds exactly ONE row of look-ahead (C02: what is pulled for k output rows does not depend on the length of the source)."""
+    def body(ctx):
+        box = {}
+
+        def record(i):
+            return it.call(Rec, [SCell(z3.Select(S.rows, i)), flds_box[0]], {})
+
+        def rebind(ls):
+            k = ls.k.t
+            flds_box[0] = ls['flds']
+            ls.env.vars['cur'] = record(k - 1)
+            ls.env.vars['prv'] = None if ctx.branch(k == 2, 'second data row') else record(k - 2)
+            box['ncalls'] = len(ls['query'].calls)
+
+        def is_row(v, i):
+            """the V value v is a copy of source row i (same cells)"""
+            return _t(row_eq(view_seq(SCell(v)), src_row(S, i)))
+
+        def rec_is(r, i):
+            return is_row(as_v(r.attrs['_tuple']), i) if isinstance(r, Instance) else z3.BoolVal(False)
+
+        def inv(ls):
+            k = ls.k.t
+            cur, prv = ls['cur'], ls['prv']
+            p = (k == 2) if prv is None else z3.And(k > 2, rec_is(prv, k - 2))
+            return z3.And(k >= 2, rec_is(cur, k - 1), p)
+
+        def judge(dout, call, i, first, last):
+            """the call query(prv, cur, nxt) made for data row i, and what was emitted for it"""
+            pv, cv, nv = call
+            r, raises, exc = bi.ucall_terms('query', [pv, cv, nv])
+            args_ok = z3.And(is_row(cv, i), z3.If(first, pv == as_v(None), is_row(pv, i - 1)), (nv == as_v(None)) if last else is_row(nv, i + 1))
+            return z3.And(args_ok, z3.If(smt.truthy(r), z3.And(dout.len == 1, is_row(z3.Select(dout.arr, 0), i)), dout.len == 0))
+
+        def delta(ls, x, dout):
+            k = ls.k.t
+            calls = ls['query'].calls
+            ctx.oblige('selectusingcontext: one call of query per step', z3.BoolVal(len(calls) == box['ncalls'] + 1))
+            ctx.oblige('selectusingcontext: data row i is kept iff query(row i-1 (None for the first), row i, row i+1) is true; a kept row is yielded once, unchanged',
+                       judge(dout, calls[-1], k - 1, k == 2, False))
+        spec = LoopSpec(invariant=inv, delta=delta, label='rows (with one row of look-ahead)')
+        spec.rebind = rebind
+        spec.lookahead = 1
+        it = h.interp(ctx, loops={(SEL + 'iterselectusingcontext', 0): spec})
+        flds_box = [None]
+        S = sym_table(ctx, 'S', nmin=1)
+        Rec = closure_of(it, 'petl.util.base.Record')
+        res = run_generator(it, closure_of(it, SEL + 'iterselectusingcontext'), [S, UCall('query')])
+        if res.exc is not None:
+            ctx.oblige('selectusingcontext: only the exception of `query` escapes', z3.BoolVal(res.exc.kind == 'UserError'), res.exc.origin or '')
+            return
+        if getattr(ctx, 'after_loop', None):
+            n = S.n
+            calls = res.env.lookup('query').calls
+            ctx.oblige('selectusingcontext: the last data row is judged with next = None', judge(res.out, calls[-1], n - 1, n == 2, True))
+            pre = ctx.pre_loop_out
+            ctx.oblige('selectusingcontext: the header first, once', z3.And(pre.len == 1, _t(row_eq(out_row(pre, 0), src_row(S, 0)))))
+        else:
+            ctx.oblige('selectusingcontext: a table without data rows yields the header only', z3.And(res.out.len <= 1, S.n <= 1))
+    h.explore(body)
